@@ -284,6 +284,7 @@ func (ii *invertedIndex) put(key, seriesID uint32) {
 
 func (ii *invertedIndex) getSeriesIDs(key uint32) (*roaring.Bitmap, error) {
 	snapshot := ii.family.GetSnapshot()
+	verifhook.Yield("index.inverted.get.afterSnapshot")
 	defer snapshot.Close()
 
 	result := roaring.New()
@@ -466,6 +467,7 @@ func (fi *forwardIndex) findSeriesIDsForTag(tagKeyID tag.KeyID) (*roaring.Bitmap
 // GetGroupingContext returns the context of group by
 func (fi *forwardIndex) GetGroupingContext(ctx *flow.ShardExecuteContext) error {
 	snapshot := fi.family.GetSnapshot()
+	verifhook.Yield("index.forward.grouping.afterSnapshot")
 	defer snapshot.Close()
 
 	scannerMap := make(map[tag.KeyID][]flow.GroupingScanner)
